@@ -81,6 +81,8 @@ var (
 		"5", "5:", ":5", "2:8", "n=2:8", "n=5", "n=9:", "-3:3",
 		"5kb", "sz=5kb", "5120b", "sz=1mb:", "1b:2kb", "4kb:", ":3ms", "t=1s:", "2000us:4ms", "t=3000us",
 		"sz=5", "n=5kb",
+		// bounds in a unit coarser than the label's, next to label values that are not whole multiples of it
+		":1s", "1s", "sz=:5kb", ":2kb",
 	}
 	tagValsSmall = []string{"v", "k=v", "v,w", "k=v,w", "k:v", "5", "2:8", "n=2:8", "sz=5kb", "1b:2kb", ":3ms"}
 	tagKeyRx     = []string{"k", "j", "n", "sz", "k|n", "^.$", "x"}
@@ -109,6 +111,9 @@ var labelSets = []labelSet{
 	{name: "t:3", num: map[string][]int64{"t": {3}}},
 	{name: "t:5000 n:-2", num: map[string][]int64{"t": {5000}, "n": {-2}}},
 	{name: "k:v n:5 sz:5120", str: map[string][]string{"k": {"v"}}, num: map[string][]int64{"n": {5}, "sz": {5120}}},
+	// values just above a whole multiple of a coarser unit (5 kB + 1, 2 kB + 1, 1.5 s)
+	{name: "sz:5121", num: map[string][]int64{"sz": {5121}}},
+	{name: "sz:2049 t:1500", num: map[string][]int64{"sz": {2049}, "t": {1500}}},
 }
 
 func labelSetByName(n string) int {
